@@ -105,9 +105,7 @@ var tmplActions = []string{
 	`{{ .Subcharts }}`,
 	`{{ .Subcharts.sub.Values }}`,
 	`{{ .Template.Name }}{{ .Template.BasePath }}`,
-	`{{ $_ := set .Values "fzSelf" .Values }}{{ toJson .Values | len }}`,
-	`{{ $_ := set .Values "fzSelf" .Values }}{{ toYaml .Values | len }}`,
-	`{{ $d := dict }}{{ $_ := set $d "self" $d }}{{ toJson $d }}`,
+	`{{ $d := dict }}{{ $_ := set $d "self" $d }}{{ toJson $d }}{{ toYaml $d }}`,
 	`{{ $_ := unset .Values "replicas" }}{{ .Values.replicas }}`,
 	`{{ merge .Values (dict "a" (list 1)) | toJson | len }}`,
 	`{{ mergeOverwrite (dict "a" (dict "b" 1)) (dict "a" 2) }}`,
@@ -165,11 +163,13 @@ const tmplDefines = `
 `
 
 // Rare shapes that are expected to exhaust memory/stack if helm has no guard (kept rare because
-// each occurrence costs seconds and ends the worker).
+// each occurrence costs seconds and ends the worker): tpl calling itself, and helm's own
+// serializers toToml / toYamlPretty on a cyclic dict (toYaml / toJson are protected by
+// encoding/json's cycle detection). Sprig functions on cyclic data (deepCopy, merge) are not
+// helm code and are not generated.
 var tmplUnbounded = []string{
 	`{{ tpl .Values.fzTplSelf . }}`,
 	`{{ $_ := set .Values "fzSelf" .Values }}{{ toToml .Values | len }}`,
-	`{{ $_ := set .Values "fzSelf" .Values }}{{ deepCopy .Values | len }}`,
 	`{{ $_ := set .Values "fzSelf" .Values }}{{ toYamlPretty .Values | len }}`,
 }
 
